@@ -68,6 +68,10 @@ enum Kind {
     /// a type name (`Qt.StrongFocus`) in a binding of the instance: a bare name is looked up as a property and a method of the
     /// object first
     TypeRef,
+    /// scoped type names: `let n: A.B = …`, `(… as A.B)` (the request's two names are A and B), and the enumerator `A.V`
+    TypeAnnot,
+    TypeCast,
+    EnumRef,
 }
 
 impl Kind {
@@ -78,10 +82,13 @@ impl Kind {
             Kind::MethodCall => "method-call",
             Kind::SignalCb => "signal-cb",
             Kind::TypeRef => "type-ref",
+            Kind::TypeAnnot => "type-annot",
+            Kind::TypeCast => "type-cast",
+            Kind::EnumRef => "enum-ref",
         }
     }
     fn parse(s: &str) -> Option<Kind> {
-        [Kind::PropBind, Kind::PropRead, Kind::MethodCall, Kind::SignalCb, Kind::TypeRef].into_iter().find(|k| k.name() == s)
+        [Kind::PropBind, Kind::PropRead, Kind::MethodCall, Kind::SignalCb, Kind::TypeRef, Kind::TypeAnnot, Kind::TypeCast, Kind::EnumRef].into_iter().find(|k| k.name() == s)
     }
 }
 
@@ -111,7 +118,7 @@ fn family(rng: &mut Rng, shape: &FamilyShape, kind: Kind, sv: &[St]) -> Vec<Clas
             let bad_pick = (*rng.pick(&UNRESOLVABLE)).to_owned();
             let bad = || bad_pick.clone();
             match (kind, st) {
-                (_, St::A) | (Kind::TypeRef, _) => {}
+                (_, St::A) | (Kind::TypeRef | Kind::TypeAnnot | Kind::TypeCast | Kind::EnumRef, _) => {}
                 (Kind::PropBind | Kind::PropRead, St::R) => c.props.push(PropSpec { name: PROP.into(), ty: Some(LEVEL_TYPES[level % 3].into()) }),
                 (Kind::PropBind | Kind::PropRead, St::U) => c.props.push(PropSpec { name: PROP.into(), ty: Some(bad()) }),
                 (Kind::MethodCall, St::R) => {
@@ -141,8 +148,81 @@ fn family(rng: &mut Rng, shape: &FamilyShape, kind: Kind, sv: &[St]) -> Vec<Clas
         .collect()
 }
 
+/// class families with nested enums for the scoped-name documents
+fn enum_families() -> Vec<(&'static str, Vec<ClassSpec>)> {
+    use super::EnumSpec;
+    let cls = |name: &str, supers: &[&str], enums: Vec<EnumSpec>| ClassSpec {
+        name: name.to_owned(),
+        supers: supers.iter().map(|s| ((*s).to_owned(), "pub")).collect(),
+        enums,
+        ..Default::default()
+    };
+    let en = |name: &str, scoped: bool, vs: &[&str]| EnumSpec { name: name.to_owned(), scoped, variants: vs.iter().map(|v| (*v).to_owned()).collect() };
+    vec![
+        (
+            "chain-sibling",
+            vec![
+                cls("L0", &["QWidget"], vec![en("VMode", false, &["VOn", "VOff"])]),
+                cls("L1", &["L0"], vec![en("VScoped", true, &["VS"])]),
+                cls("L2", &["L1"], vec![en("VKind", false, &["VA", "VB"])]),
+                cls("S", &["QWidget"], vec![en("VOther", false, &["VX"])]),
+            ],
+        ),
+        (
+            "diamond",
+            vec![
+                cls("L0", &["QWidget"], vec![en("VMode", false, &["VOn"])]),
+                cls("M1", &["L0"], vec![en("VLeft", false, &["VL"])]),
+                cls("M2", &["L0"], vec![]),
+                cls("D", &["M1", "M2"], vec![en("VKind", false, &["VA"])]),
+            ],
+        ),
+    ]
+}
+
+fn scoped_cases(cases: &mut Vec<Case>) {
+    let mut k = 0usize;
+    for (label, classes) in enum_families() {
+        let own: Vec<String> = classes.iter().map(|c| c.name.clone()).collect();
+        let heads: Vec<String> = own.iter().cloned().chain(["QWidget", "QPushButton", "QAbstractButton"].map(String::from)).collect();
+        let enums: Vec<String> = classes.iter().flat_map(|c| c.enums.iter().map(|e| e.name.clone())).collect();
+        let variants: Vec<String> = classes.iter().flat_map(|c| c.enums.iter().flat_map(|e| e.variants.clone())).collect();
+        for a in &heads {
+            let mut tails: Vec<String> = enums.clone();
+            tails.extend(own.iter().cloned());
+            tails.extend(["int", "QString", "QLabel", "QWidget", "Nope"].map(String::from));
+            tails.extend(variants.iter().take(2).cloned());
+            tails.push(a.clone());
+            for kind in [Kind::TypeAnnot, Kind::TypeCast, Kind::EnumRef] {
+                let names: Vec<String> = if kind == Kind::EnumRef {
+                    variants.iter().cloned().chain(enums.iter().take(2).cloned()).chain(["int".to_owned(), own[0].clone()]).collect()
+                } else {
+                    tails.clone()
+                };
+                for b in names {
+                    k += 1;
+                    let args = vec![node("classes", classes.iter().map(class_sexp).collect()), node("use", vec![atom(kind.name()), st(a.clone()), st(b.clone())])];
+                    let found = matches!(scoped_expectation(&classes, kind, a, &b), Expect::Found { .. });
+                    let labels = vec![
+                        "pipeline".to_owned(),
+                        "scoped-names".to_owned(),
+                        format!("doc:{}", kind.name()),
+                        format!("doc-shape:enums-{label}"),
+                        if found { "scoped:member".to_owned() } else { "scoped:not-a-member".to_owned() },
+                    ];
+                    cases.push(Case { kind: "oracle", labels: labels.clone(), request: node("c17-doc", args.clone()) });
+                    if k % 10 == 0 {
+                        cases.push(Case { kind: "oracle", labels: [labels, vec!["cli".to_owned()]].concat(), request: node("c17-cli", args) });
+                    }
+                }
+            }
+        }
+    }
+}
+
 pub fn generate(seed: u64, thorough: bool) -> Vec<Case> {
     let mut cases = vec![];
+    scoped_cases(&mut cases);
     let mut k = 0u64;
     for (label, shape) in family_shapes() {
         // a type name in a binding of an instance of every class of the family
@@ -309,6 +389,45 @@ fn f92_listed() -> bool {
 }
 
 /// (what must happen, is this a case finding F92 changes)
+/// `A.B` as a type / `A.V` as an enumerator: found iff `A` or one of its public ancestors DECLARES the enum `B` resp. an
+/// unscoped enum listing `V` — not when the name is merely visible from there (a descendant's or sibling's enum, a top-level
+/// class, a builtin, `A` itself).  Found: an initialiser of that enum's type (`Owner.Variant`).
+fn scoped_expectation(classes: &[ClassSpec], kind: Kind, a: &str, b: &str) -> Expect {
+    // `a` and its public ancestors inside the family (Qt classes declare none of the family's names)
+    let mut seen: Vec<String> = vec![];
+    let mut queue = std::collections::VecDeque::from([a.to_owned()]);
+    while let Some(n) = queue.pop_front() {
+        if seen.contains(&n) {
+            continue;
+        }
+        seen.push(n.clone());
+        let Some(c) = effective(classes, &n) else { continue };
+        for e in &c.enums {
+            let hit = match kind {
+                Kind::EnumRef => !e.scoped && e.variants.iter().any(|v| v == b),
+                _ => e.name == b,
+            };
+            if hit {
+                let init = match e.variants.first() {
+                    Some(v) if !e.scoped => format!("{}.{v}", c.name),
+                    Some(v) => format!("{}.{}.{v}", c.name, e.name),
+                    None => "1".to_owned(),
+                };
+                return Expect::Found { ty: init, arity: 0 };
+            }
+        }
+        queue.extend(c.supers.iter().filter(|(_, acc)| *acc == "pub").map(|(s, _)| s.clone()));
+    }
+    Expect::Unknown
+}
+
+fn expectation_of(p: &Parsed) -> (Expect, bool) {
+    match p.kind {
+        Kind::TypeAnnot | Kind::TypeCast | Kind::EnumRef => (scoped_expectation(&p.classes, p.kind, &p.inst, &p.through), false),
+        _ => expectation(&p.classes, p.kind, &p.through),
+    }
+}
+
 fn expectation(classes: &[ClassSpec], kind: Kind, through: &str) -> (Expect, bool) {
     let dangling = dangling_from(classes, through);
     if kind == Kind::TypeRef {
@@ -320,7 +439,7 @@ fn expectation(classes: &[ClassSpec], kind: Kind, through: &str) -> (Expect, boo
     }
     let (declares, resolves, describe): (Box<dyn Fn(&ClassSpec) -> bool>, Box<dyn Fn(&ClassSpec) -> bool>, Box<dyn Fn(&ClassSpec) -> (String, usize)>) =
         match kind {
-            Kind::PropBind | Kind::PropRead | Kind::TypeRef => (
+            Kind::PropBind | Kind::PropRead | Kind::TypeRef | Kind::TypeAnnot | Kind::TypeCast | Kind::EnumRef => (
                 Box::new(|c| c.props.iter().any(|p| p.name == PROP)),
                 Box::new(|c| c.props.iter().rev().find(|p| p.name == PROP).map(|p| type_resolves(p.type_name())).unwrap_or(false)),
                 Box::new(|c| (c.props.iter().rev().find(|p| p.name == PROP).map(|p| p.type_name().to_owned()).unwrap_or_default(), 0)),
@@ -385,6 +504,16 @@ fn document(kind: Kind, inst: &str, through: &str, expect: &Expect) -> String {
         Kind::PropRead => (String::new(), format!("let v = {x}.{PROP}")),
         Kind::MethodCall => (String::new(), format!("{x}.{METHOD}({args})")),
         Kind::TypeRef => ("; focusPolicy: Qt.StrongFocus".to_owned(), String::new()),
+        Kind::TypeAnnot | Kind::TypeCast | Kind::EnumRef => {
+            // `ty` is the initialiser here; the document needs no instance of the family
+            let init = if matches!(expect, Expect::Found { .. }) { ty } else { "1" };
+            let body = match kind {
+                Kind::TypeAnnot => format!("let n: {inst}.{through} = {init}"),
+                Kind::TypeCast => format!("let n = ({init} as {inst}.{through})"),
+                _ => format!("let n = {inst}.{through}"),
+            };
+            return format!("import qmluic.QtWidgets\nQWidget {{\n    QPushButton {{ onClicked: {{ {body} }} }}\n}}\n");
+        }
     };
     format!("import qmluic.QtWidgets\nQWidget {{\n    {inst} {{ id: x{member} }}\n    QPushButton {{ onClicked: {{ {body} }} }}\n}}\n")
 }
@@ -394,7 +523,7 @@ fn failure_fragment(kind: Kind) -> &'static str {
         Kind::PropBind | Kind::PropRead => "property resolution failed",
         Kind::MethodCall => "method resolution failed",
         Kind::SignalCb => "signal resolution failed",
-        Kind::TypeRef => "type resolution failed",
+        Kind::TypeRef | Kind::TypeAnnot | Kind::TypeCast | Kind::EnumRef => "type resolution failed",
     }
 }
 
@@ -403,7 +532,8 @@ fn unknown_fragment(kind: Kind) -> &'static str {
         Kind::PropBind => "unknown property of class",
         Kind::SignalCb => "unknown signal of class",
         Kind::PropRead | Kind::MethodCall => "not found in type",
-        Kind::TypeRef => "undefined reference",
+        Kind::TypeRef | Kind::EnumRef => "undefined reference",
+        Kind::TypeAnnot | Kind::TypeCast => "undefined type",
     }
 }
 
@@ -436,7 +566,9 @@ fn verdict(p: &Parsed, expect: &Expect, f92: bool, doc: &str, accepted: bool, me
         extra.push(atom("f92-case"));
     }
     let failed = messages.iter().any(|m| m.contains(failure_fragment(p.kind)));
-    let unknown = messages.iter().any(|m| m.contains(unknown_fragment(p.kind)));
+    // `A.B` with B a member enum TYPE, written where a value is expected: the type is found, and refused as a value
+    let bare_type = p.kind == Kind::EnumRef && matches!(scoped_expectation(&p.classes, Kind::TypeAnnot, &p.inst, &p.through), Expect::Found { .. });
+    let unknown = messages.iter().any(|m| m.contains(if bare_type { "bare type reference" } else { unknown_fragment(p.kind) }));
     let super_reported = |d: &str| messages.iter().any(|m| m.contains("resolution failed") && m.contains(&format!("'{d}'")));
     let what = match expect {
         Expect::SuperUnresolved(_) if accepted => Some("accepted-although-a-super-class-is-unresolved-and-nothing-declares-the-property"),
@@ -493,7 +625,7 @@ fn type_map(qt: &[metatype::Class], family: &[ClassSpec]) -> TypeMap {
 
 pub fn answer_doc(qt: &[metatype::Class], args: &[Sexp]) -> Sexp {
     let Some(p) = parse(args) else { return node("bad-request", vec![]) };
-    let (expect, f92) = expectation(&p.classes, p.kind, &p.through);
+    let (expect, f92) = expectation_of(&p);
     let doc = document(p.kind, &p.inst, &p.through, &expect);
     let tm = type_map(qt, &p.classes);
     let t = env::translate(&tm, &doc, "Main", Mode::Generate);
@@ -527,7 +659,7 @@ pub fn answer_doc(qt: &[metatype::Class], args: &[Sexp]) -> Sexp {
                     return node("violation", vec![atom("connect-not-in-header"), node("document", vec![st(doc)])]);
                 }
             }
-            Kind::PropRead | Kind::TypeRef => {}
+            Kind::PropRead | Kind::TypeRef | Kind::TypeAnnot | Kind::TypeCast | Kind::EnumRef => {}
         }
         extra.push(atom("outputs-checked"));
     }
@@ -538,7 +670,7 @@ pub fn answer_cli(args: &[Sexp]) -> Sexp {
     use std::sync::atomic::{AtomicU64, Ordering};
     static COUNTER: AtomicU64 = AtomicU64::new(0);
     let Some(p) = parse(args) else { return node("bad-request", vec![]) };
-    let (expect, f92) = expectation(&p.classes, p.kind, &p.through);
+    let (expect, f92) = expectation_of(&p);
     let doc = document(p.kind, &p.inst, &p.through, &expect);
     let bin = env::cli_binary();
     let dir = std::env::temp_dir().join(format!("qv-c17-{}-{}", std::process::id(), COUNTER.fetch_add(1, Ordering::Relaxed)));
